@@ -96,6 +96,12 @@ def event_projects():
                "#[derive(Serialize, Deserialize)]\npub struct Nothing {}\n\n")
     P.append(("field-less-structs-as-types", [("lib.rs", a + empties + rg.command_src("acknowledge", [("id", "i32")], "Ack") + rg.command_src("subscribe", [("on_beat", "Channel<Heartbeat>")], "Vec<Nothing>") +
                                                 "pub fn beat(app: AppHandle, h: Heartbeat) {\n    app.emit(\"beat\", h).unwrap();\n}\n\npub fn done(app: AppHandle) {\n    app.emit(\"done\", Ack).unwrap();\n}\n")]))
+    # a type defined many directories below the project path, used from the top (and an event payload type down there as well)
+    for depth in (5, 6, 9, 14):
+        deep = "/".join("m%d" % k for k in range(depth)) + "/model.rs"
+        P.append(("type-defined-%d-directories-down" % depth, [
+            ("lib.rs", a + rg.command_src("stock", [("item", "DeepItem")], "Vec<DeepLevel>") + "pub fn moved(app: AppHandle, m: DeepMoved) {\n    app.emit(\"stock-moved\", m).unwrap();\n}\n"),
+            (deep, rg.PRELUDE + rg.struct_src("DeepItem", [("level", "DeepLevel")]) + rg.enum_src("DeepLevel", [("Low",), ("High",)]) + rg.struct_src("DeepMoved", [("item", "DeepItem")]))]))
     P.append(("no-events", [("lib.rs", a)]))
     # no command takes anything from the frontend: commands.ts still needs its `types` import for what the commands return
     for k, rets in enumerate((["Vec<Foo>"], ["Option<Foo>", "Result<Vec<Kind>, String>"], ["HashMap<String, Wrap>", "(Foo, Kind)"], ["Result<Option<Vec<Foo>>, String>"], ["Foo"], ["Vec<Foo>", "i32"])):
